@@ -371,6 +371,53 @@ def runSeq (k : Kind) (iw : List Nat) (ss : Streams) : ObjState → List Nat →
   | _, [] => []
   | st, q :: qs => (query k iw ss st q).2 :: runSeq k iw ss (query k iw ss st q).1 qs
 
+/-! ### scans: `Scan.shape` and `Scan.num_frames` among the image queries (round H)
+
+`Scan.num_frames` reads `self._metadata.num_frames`; when that is 0 (continuous scan) it reconstructs the
+number of frames from the info wave and STORES it (`self._metadata = self._metadata.with_num_frames(…)`),
+so the metadata frame count is part of the object's mutable state.  `Scan.shape` evaluates
+`Scan.num_frames`; `get_image` does not. -/
+
+/-- The mutable part of a scan: the metadata frame count (0 = not known yet) and the confocal state. -/
+structure ScanState where
+  mf : Nat
+  obj : ObjState
+deriving Repr, DecidableEq
+
+/-- `Scan.num_frames`: (the metadata frame count it leaves behind, the answer). -/
+def queryNumFrames (axes : Axes) (iw : List Nat) (mf : Nat) : Nat × Nat :=
+  if mf = 0 then
+    let nf := reconstructNumFrames iw (pixelsPerLine axes) (linesPerFrame axes)
+    (nf, nf)
+  else (mf, mf)
+
+/-- `Scan.shape`: `(num_frames, *reversed(_num_pixels), 3)` without the frame axis for a single frame. -/
+def queryScanShape (axes : Axes) (iw : List Nat) (mf : Nat) : Nat × List Nat :=
+  let r := queryNumFrames axes iw mf
+  (r.1, (if r.2 > 1 then [r.2] else []) ++ (numPixels axes).reverse ++ [3])
+
+/-- One query on a scan (`0…3` as `query`; `4` = `Scan.shape`; `5` = `Scan.num_frames`) and its printed answer. -/
+def scanQuery (axes : Axes) (iw : List Nat) (ss : Streams) (st : ScanState) (q : Nat) : ScanState × String :=
+  if q = 4 then
+    let r := queryScanShape axes iw st.mf
+    (⟨r.1, st.obj⟩, Verif.Proto.showNatList r.2)
+  else if q = 5 then
+    let r := queryNumFrames axes iw st.mf
+    (⟨r.1, st.obj⟩, toString r.2)
+  else
+    let r := query (.scan axes) iw ss st.obj q
+    (⟨st.mf, r.1⟩, r.2)
+
+/-- The state a sequence of queries leaves behind (scan). -/
+def scanStateAfter (axes : Axes) (iw : List Nat) (ss : Streams) : ScanState → List Nat → ScanState
+  | st, [] => st
+  | st, q :: qs => scanStateAfter axes iw ss (scanQuery axes iw ss st q).1 qs
+
+/-- The answers of a sequence of queries on one scan. -/
+def runScanSeq (axes : Axes) (iw : List Nat) (ss : Streams) : ScanState → List Nat → List String
+  | _, [] => []
+  | st, q :: qs => (scanQuery axes iw ss st q).2 :: runScanSeq axes iw ss (scanQuery axes iw ss st q).1 qs
+
 /-! ### specification side (independent of the cumulative-sum algorithm) -/
 
 /-- One timeline sample: (photon count, info-wave code). -/
@@ -470,6 +517,13 @@ def pureAnswer (k : Kind) (iw : List Nat) (ss : Streams) (off : Nat) (q : Nat) :
   else if q = 3 then showAnswer (pureRgb (F 0) (F 1) (F 2))
   else match pureShape F [0, 1, 2] with | .err e => e | .ok sh => Verif.Proto.showNatList sh
 
+/-- The printed answer of a NEW scan (metadata frame count `mf`) to query `q` asked first: the metadata queries are
+    answered from the metadata and the info wave alone (`scanShape`, `numFrames`). -/
+def scanPureAnswer (axes : Axes) (mf : Nat) (iw : List Nat) (ss : Streams) (q : Nat) : String :=
+  if q = 4 then Verif.Proto.showNatList (scanShape axes mf iw)
+  else if q = 5 then toString (numFrames mf iw (pixelsPerLine axes) (linesPerFrame axes))
+  else pureAnswer (.scan axes) iw ss 0 q
+
 /-! ### regular info waves (input family of the first-line-repair theorems; `builders_confocal.infowave`) -/
 
 /-- one pixel: `k - 1` samples `use`, then the boundary sample -/
@@ -519,7 +573,12 @@ def axes? (fa fp sa sp : String) : Option Axes := do
   `c02.total k|s [iw] lead [counts]|N`   the image total the property promises for that colour (specification side:
                                          used samples of the shared span up to its last boundary)
   `c02.kymopure …` / `c02.scanpure …`    (arguments of `kymoseq` / `scanseq`) every query answered from scratch
-                                         (`pureAnswer` at start 0): what a NEW object answers to it -/
+                                         (`pureAnswer` at start 0): what a NEW object answers to it
+  `c02.scanmseq fa fp sa sp meta [iw] lr [r]|N lg [g]|N lb [b]|N [queries]`  like `scanseq` for a scan whose metadata
+                                         frame count is `meta` (0 = continuous), with the queries 4 = `Scan.shape` and
+                                         5 = `Scan.num_frames` as well (`runScanSeq`)
+  `c02.scanmseqoff …` / `c02.scanmpure …` (arguments of `scanmseq`) the start after the sequence / every query answered
+                                         by a NEW scan (`scanPureAnswer`) -/
 def handle : List String → Option String
   | ["c02.sum", data, iw, shape] => do
     let data ← intList? data; let iw ← natList? iw; let shape ← natList? shape
@@ -624,6 +683,24 @@ def handle : List String → Option String
     let lr ← int? lr; let cr ← chan? cr; let lg ← int? lg; let cg ← chan? cg; let lb ← int? lb; let cb ← chan? cb
     if pixelsPerLine axes < 2 ∨ linesPerFrame axes < 2 ∨ qs.any (· > 3) then none
     else some (";".intercalate (qs.map (pureAnswer (.scan axes) iw [⟨lr, cr⟩, ⟨lg, cg⟩, ⟨lb, cb⟩] 0)))
+  | ["c02.scanmseq", fa, fp, sa, sp, m, iw, lr, cr, lg, cg, lb, cb, qs] => do
+    let axes ← axes? fa fp sa sp
+    let m ← nat? m; let iw ← natList? iw; let qs ← natList? qs
+    let lr ← int? lr; let cr ← chan? cr; let lg ← int? lg; let cg ← chan? cg; let lb ← int? lb; let cb ← chan? cb
+    if pixelsPerLine axes < 2 ∨ linesPerFrame axes < 2 ∨ qs.any (· > 5) then none
+    else some (";".intercalate (runScanSeq axes iw [⟨lr, cr⟩, ⟨lg, cg⟩, ⟨lb, cb⟩] ⟨m, ObjState.fresh⟩ qs))
+  | ["c02.scanmseqoff", fa, fp, sa, sp, m, iw, lr, cr, lg, cg, lb, cb, qs] => do
+    let axes ← axes? fa fp sa sp
+    let m ← nat? m; let iw ← natList? iw; let qs ← natList? qs
+    let lr ← int? lr; let cr ← chan? cr; let lg ← int? lg; let cg ← chan? cg; let lb ← int? lb; let cb ← chan? cb
+    if pixelsPerLine axes < 2 ∨ linesPerFrame axes < 2 ∨ qs.any (· > 5) then none
+    else some (toString (scanStateAfter axes iw [⟨lr, cr⟩, ⟨lg, cg⟩, ⟨lb, cb⟩] ⟨m, ObjState.fresh⟩ qs).obj.off)
+  | ["c02.scanmpure", fa, fp, sa, sp, m, iw, lr, cr, lg, cg, lb, cb, qs] => do
+    let axes ← axes? fa fp sa sp
+    let m ← nat? m; let iw ← natList? iw; let qs ← natList? qs
+    let lr ← int? lr; let cr ← chan? cr; let lg ← int? lg; let cg ← chan? cg; let lb ← int? lb; let cb ← chan? cb
+    if pixelsPerLine axes < 2 ∨ linesPerFrame axes < 2 ∨ qs.any (· > 5) then none
+    else some (";".intercalate (qs.map (scanPureAnswer axes m iw [⟨lr, cr⟩, ⟨lg, cg⟩, ⟨lb, cb⟩])))
   | _ => none
 
 end Verif.C02
